@@ -167,9 +167,24 @@ func genC01(g *Gen) {
 	if p.Variant == "deep" {
 		maxReq = 80
 	}
+	startSpread := 20
+	if p.Variant == "crowd" {
+		// hundreds of connections ready in the same poll: the poller's event list (128 entries at start) must grow and the
+		// per-poll batch is larger than one epoll_wait result
+		nc = g.R.Range(140, 330)
+		maxReq = 3
+		startSpread = 4
+		p.Sched.WPoll = 2
+	}
 	for ci := 0; ci < nc; ci++ {
 		cp := ClientPlan{Addr: clientAddr(ci), Mode: g.R.Pick([]string{"pipeline", "pipeline", "open"}), GapMs: g.R.Range(1, 30),
-			CloseAfterSent: -1, CloseAfterReplies: -1, StartStep: g.R.Intn(20), Slow: g.R.Pct(15)}
+			CloseAfterSent: -1, CloseAfterReplies: -1, StartStep: g.R.Intn(startSpread), Slow: g.R.Pct(15)}
+		if p.Variant == "crowd" {
+			if g.R.Pct(90) {
+				cp.SendAfterAccepts = nc // all of these become ready for the same poll
+			}
+			cp.Mode = "pipeline"
+		}
 		n := g.R.Range(1, maxReq)
 		localPct := []int{0, 10, 30, 60}[g.R.Intn(4)]
 		for ri := 0; ri < n; ri++ {
